@@ -218,6 +218,14 @@ private:
             if (!success && (flags & F_NULLFAIL) && !sig.empty()) return Err::SIG_NULLFAIL;
             return Err::OK;
         }
+        if (sv == SigVer::TAPROOT) {
+            // key-path spend presented by the debugger as the pretend script "<output key> OP_CHECKSIG":
+            // BIP341 key-path rule — the signature must be a valid BIP340 signature by the output key, else the spend fails
+            Err e = Err::SCHNORR_SIG;
+            ExecData d = ed;
+            success = checker && checker->check_schnorr(sig, key, sv, d, e);
+            return success ? Err::OK : e;
+        }
         // tapscript (BIP342)
         success = !sig.empty();
         if (success) {
